@@ -1432,6 +1432,39 @@ fn c05(r: &mut Rng, fonts: &[FontInfo], n: u64, tr: &mut Option<std::fs::File>) 
           }
         }
     }
+    // (a4) a buffer filled in steps with guess_segment_properties() called in between, while it holds only script-neutral
+    //      characters (or nothing): the guess finds no script then, and shape() guesses again over the full text - the
+    //      result is that of a buffer filled in one go with the same direction
+    for (k, fi) in fonts.iter().filter(|f| f.chars.iter().any(|c| (0x0621..=0x064A).contains(c) || (0x05D0..=0x05EA).contains(c) || (0x0905..=0x0939).contains(c) || (0xAC00..=0xD7A3).contains(c))).take(if n > 100 { 60 } else { 16 }).enumerate() {
+        let Some(face) = Face::from_slice(&fi.data, 0) else { continue };
+        let strong: Vec<u32> = fi.chars.iter().cloned().filter(|c| (0x0621..=0x064A).contains(c) || (0x05D0..=0x05EA).contains(c) || (0x0905..=0x0939).contains(c) || (0xAC00..=0xD7A3).contains(c)).take(40).collect();
+        for j in 0..4usize {
+            let prefix: String = ["", "1.", "12 ", "(3) "][(k + j) % 4].to_string();
+            let body: String = (0..3 + j).map(|i| char::from_u32(strong[(k * 7 + i * 3 + j) % strong.len()]).unwrap()).collect();
+            let res = catch(std::panic::AssertUnwindSafe(|| {
+                let mut a = UnicodeBuffer::new();
+                a.push_str(&prefix);
+                a.guess_segment_properties();
+                let dir = a.direction();
+                a.push_str(&body);
+                let ga = rustybuzz::shape(&face, &[], a);
+                let mut b = UnicodeBuffer::new();
+                b.push_str(&prefix);
+                b.push_str(&body);
+                b.set_direction(dir);
+                let gb = rustybuzz::shape(&face, &[], b);
+                (collect(&face, &ga), collect(&face, &gb))
+            }));
+            cnt.evals += 1;
+            cnt.bump("guess_between_fills_cases");
+            if let Ok((x, y)) = res {
+                if x != y {
+                    let rq = Req { text: prefix.chars().chain(body.chars()).enumerate().map(|(i, c)| (c as u32, i as u32)).collect(), ..Default::default() };
+                    cnt.fail("C05", "guess-between-fills-differs", &fi.path, &rq, &format!("prefix={:?} stepwise={} at_once={}", prefix, fmt_g(&x[..x.len().min(10)]), fmt_g(&y[..y.len().min(10)])));
+                }
+            }
+        }
+    }
     // (b) threads sharing Face and ShapePlan
     let nthreads = 8;
     // variable fonts of the corpus: shaped at a non-default instance in every fourth round (variation deltas of advances
